@@ -198,6 +198,10 @@ PARTS = [
     ("scalar S%s", [" @d"]), ("union U%s = A | B", [" @d"]), ("schema%s { query: Q }", [" @d"]),
     ("interface I%s { f: Int }", [" implements J", " @d"]),
     ('"desc" directive @foo%s on FIELD | QUERY', [" @bar", " repeatable"]),
+    ('"desc" union U%s = A | B', [" @d"]), ('"desc" scalar S%s', [" @d"]), ('"desc" enum E%s { "v" A @e }', [" @d"]),
+    ('"desc" input I%s { "f" f: Int = 1 @d }', [" @d"]), ('"desc" interface J%s { "f" f("a" a: Int): Int }', [" @d"]),
+    ('"desc" type T%s { "f" f("a" a: Int = 1 @d): Int @d }', [" implements I & J", " @d"]),
+    ('"desc" schema%s { query: Q }', [" @d"]), ('"desc" query Q%s { f }', [" @d"]), ('"desc" fragment F on T%s { f }', [" @d"]),
 ]
 bad = None
 for spec in PARTS:
@@ -258,7 +262,8 @@ print("REPLAY " + json.dumps(bad))
 
 
 def replay_extra(o):
-    if "the printer emits the parts in the order" not in o.get("text", ""):
+    if "the printer emits the parts in the order" not in o.get("text", "") \
+            and "the key table lists exactly" not in o.get("text", ""):
         return None
     rc, outp = run_native(ORDER_REPLAY)
     for line in outp.splitlines():
@@ -273,7 +278,10 @@ def replay_extra(o):
 
 def extra_obligations(world, tier, seed):
     import subprocess, os, time
-    out = lemma_obligations() + print_order_obligations(world)
+    # the printer is a visitor: a child that the key table does not list is never printed (its repr
+    # ends up in the text) - the table must list exactly the node-valued fields of every node class
+    from .C11 import key_table_obligations
+    out = lemma_obligations() + print_order_obligations(world) + key_table_obligations()
     t0 = time.time()
     repo = os.environ.get("VERIF_REPO", "/repo")
     env = dict(os.environ)
